@@ -391,7 +391,9 @@ func TestCheck(t *testing.T) {
 		[]string{"simkube", "pkgh.Mgr (manager that only hands out the client)", "xrh.NewXRReconciler wiring (same option list as the XRD controller)", "transition memoisation (memo_test.go)"},
 	)
 	depth, bound := 6, 1
-	if report.Thorough() {
+	if report.Thorough() || *report.ReplayF != "" {
+		// A replayed artifact may come from either tier: give it the deeper
+		// horizon (extra steps after the recorded choices are default ones).
 		depth, bound = 8, 2
 	}
 	skip := parseSkip()
